@@ -314,6 +314,23 @@ impl ClientCtx {
         drop(h);
     }
 
+    /// Whether the application still holds any value of this client.
+    pub fn holds_anything(&self) -> bool {
+        self.handle.borrow().is_some()
+            || !self.extra.borrow().is_empty()
+            || !self.stash.borrow().is_empty()
+            || !self.held.borrow().is_empty()
+            || self.objs.iter().any(|s| s.is_some())
+            || self.svcs.iter().any(|s| s.is_some())
+            || self.proxies.iter().any(|s| s.is_some())
+            || self.snd.iter().any(|s| s.is_some())
+            || self.rcv.iter().any(|s| s.is_some())
+            || self.lis.iter().any(|s| s.is_some())
+            || self.disc.iter().any(|s| s.is_some())
+            || self.scopes.iter().any(|s| s.is_some())
+            || self.lts.iter().any(|s| s.is_some())
+    }
+
     /// Cookies of the services whose values sit in the slots.
     pub fn live_service_slots(&self) -> Vec<(u8, ServiceId)> {
         let mut v = vec![];
@@ -381,7 +398,37 @@ pub struct Board {
     pub scope_owner: BTreeMap<LifetimeId, usize>,
 }
 
+/// Possibly-live interval of an object or service in harness logical time: from the start of
+/// the creating operation to the end of the tearing-down one (None = not known to have ended).
+#[derive(Debug, Clone)]
+pub struct Life {
+    pub owner: usize,
+    pub start: u64,
+    pub acked: u64,
+    pub teardown_start: Option<u64>,
+    pub teardown_end: Option<u64>,
+}
+
+#[derive(Default)]
+pub struct Hist {
+    pub clock: u64,
+    /// by object cookie / service cookie
+    pub objs: BTreeMap<Uuid, Life>,
+    pub svcs: BTreeMap<Uuid, Life>,
+    /// acknowledged object ids in acknowledgement order
+    pub obj_ids: Vec<aldrin::core::ObjectId>,
+    pub svc_ids: BTreeMap<Uuid, ServiceId>,
+}
+
+impl Hist {
+    pub fn tick(&mut self) -> u64 {
+        self.clock += 1;
+        self.clock
+    }
+}
+
 pub struct World {
+    pub hist: RefCell<Hist>,
     pub clients: Vec<Rc<ClientCtx>>,
     pub tasks: RefCell<Vec<Rc<TaskCtx>>>,
     pub board: RefCell<Board>,
@@ -404,6 +451,7 @@ pub struct World {
 impl World {
     pub fn new(clients: Vec<Rc<ClientCtx>>, allow: Allow) -> Rc<Self> {
         Rc::new(World {
+            hist: RefCell::new(Hist::default()),
             clients,
             tasks: RefCell::new(vec![]),
             board: RefCell::new(Board::default()),
@@ -510,7 +558,53 @@ impl World {
 
     /// Accounting for the non-triviality rule: a service is being torn down (dropped, destroyed,
     /// its object dropped/destroyed, its client shut down) while calls to it are unanswered.
+    pub fn now(&self) -> u64 {
+        self.hist.borrow_mut().tick()
+    }
+
+    fn hist_teardown_end_obj(&self, obj_cookie: Uuid) {
+        let svcs: Vec<Uuid> = self.board.borrow().svc_owner.iter().filter(|(_, (_, oc))| *oc == obj_cookie).map(|(c, _)| *c).collect();
+        let mut h = self.hist.borrow_mut();
+        let t = h.tick();
+        if let Some(l) = h.objs.get_mut(&obj_cookie) {
+            l.teardown_end.get_or_insert(t);
+        }
+        for c in svcs {
+            if let Some(l) = h.svcs.get_mut(&c) {
+                l.teardown_end.get_or_insert(t);
+            }
+        }
+    }
+
+    fn hist_teardown_end_svc(&self, cookie: Uuid) {
+        let mut h = self.hist.borrow_mut();
+        let t = h.tick();
+        if let Some(l) = h.svcs.get_mut(&cookie) {
+            l.teardown_end.get_or_insert(t);
+        }
+    }
+
+    /// A completed sync_broker of client `ci` that started at `t_start` bounds every tear-down
+    /// the client had issued before.
+    fn hist_synced(&self, ci: usize, t_start: u64) {
+        let mut h = self.hist.borrow_mut();
+        let t = h.tick();
+        let Hist { objs, svcs, .. } = &mut *h;
+        for l in objs.values_mut().chain(svcs.values_mut()) {
+            if l.owner == ci && l.teardown_end.is_none() && matches!(l.teardown_start, Some(ts) if ts < t_start) {
+                l.teardown_end = Some(t);
+            }
+        }
+    }
+
     fn note_service_teardown(&self, owner: usize, cookie: Uuid) {
+        {
+            let mut h = self.hist.borrow_mut();
+            let t = h.tick();
+            if let Some(l) = h.svcs.get_mut(&cookie) {
+                l.teardown_start.get_or_insert(t);
+            }
+        }
         let b = self.board.borrow();
         let mut inflight = false;
         let mut cross = false;
@@ -540,6 +634,13 @@ impl World {
     }
 
     fn note_object_teardown(&self, owner: usize, obj_cookie: Uuid) {
+        {
+            let mut h = self.hist.borrow_mut();
+            let t = h.tick();
+            if let Some(l) = h.objs.get_mut(&obj_cookie) {
+                l.teardown_start.get_or_insert(t);
+            }
+        }
         let svcs: Vec<Uuid> = self.board.borrow().svc_owner.iter().filter(|(_, (o, oc))| *o == owner && *oc == obj_cookie).map(|(c, _)| *c).collect();
         for c in svcs {
             self.note_service_teardown(owner, c);
@@ -722,7 +823,11 @@ async fn exec(w: &Rc<World>, t: &Rc<TaskCtx>, cc: &Rc<ClientCtx>, op: &Op) -> St
         }
         Op::SyncBroker => {
             let Some(h) = cc.h() else { return skip(w) };
+            let t0 = w.now();
             let r = t.req("sync_broker", h.sync_broker()).await;
+            if r.is_ok() {
+                w.hist_synced(ci, t0);
+            }
             res_name(&r)
         }
         Op::CloneHandle => {
@@ -755,9 +860,16 @@ async fn exec(w: &Rc<World>, t: &Rc<TaskCtx>, cc: &Rc<ClientCtx>, op: &Op) -> St
 
         Op::CreateObject { o, u } => {
             let Some(h) = cc.h() else { return skip(w) };
+            let t0 = w.now();
             let r = t.req("create_object", h.create_object(obj_uuid(*u))).await;
             let s = res_name(&r);
             if let Ok(obj) = r {
+                {
+                    let mut hist = w.hist.borrow_mut();
+                    let t1 = hist.tick();
+                    hist.objs.insert(obj.id().cookie.0, Life { owner: ci, start: t0, acked: t1, teardown_start: None, teardown_end: None });
+                    hist.obj_ids.push(obj.id());
+                }
                 w.bus_mutation(ci);
                 if let Some(old) = cc.objs[*o as usize].put(Rc::new(obj)) {
                     w.note_object_teardown(ci, old.id().cookie.0);
@@ -773,6 +885,7 @@ async fn exec(w: &Rc<World>, t: &Rc<TaskCtx>, cc: &Rc<ClientCtx>, op: &Op) -> St
             if matches!(r, Ok(()) | Err(Error::InvalidObject)) {
                 w.board.borrow_mut().destroyed_objs.insert(obj.id().cookie.0);
                 w.bus_mutation(ci);
+                w.hist_teardown_end_obj(obj.id().cookie.0);
             }
             res_name(&r)
         }
@@ -787,10 +900,17 @@ async fn exec(w: &Rc<World>, t: &Rc<TaskCtx>, cc: &Rc<ClientCtx>, op: &Op) -> St
         },
         Op::CreateService { o, s, u, ver } => {
             let Some(obj) = cc.objs[*o as usize].get() else { return skip(w) };
+            let t0 = w.now();
             let r = t.req("create_service", obj.create_service(svc_uuid(*u), ServiceInfo::new(*ver as u32))).await;
             let txt = res_name(&r);
             if let Ok(svc) = r {
                 let id = svc.id();
+                {
+                    let mut hist = w.hist.borrow_mut();
+                    let t1 = hist.tick();
+                    hist.svcs.insert(id.cookie.0, Life { owner: ci, start: t0, acked: t1, teardown_start: None, teardown_end: None });
+                    hist.svc_ids.insert(id.cookie.0, id);
+                }
                 {
                     let mut b = w.board.borrow_mut();
                     b.services.insert((ci, *s), id);
@@ -812,6 +932,7 @@ async fn exec(w: &Rc<World>, t: &Rc<TaskCtx>, cc: &Rc<ClientCtx>, op: &Op) -> St
             if matches!(r, Ok(()) | Err(Error::InvalidService)) {
                 w.board.borrow_mut().destroyed_svcs.insert(cookie);
                 w.bus_mutation(ci);
+                w.hist_teardown_end_svc(cookie);
             }
             drop(cc.svcs[*s as usize].put_back(svc));
             res_name(&r)
@@ -1549,10 +1670,17 @@ async fn exec(w: &Rc<World>, t: &Rc<TaskCtx>, cc: &Rc<ClientCtx>, op: &Op) -> St
                 w.board.borrow_mut().scopes.push(None);
                 return skip(w);
             };
+            let t0 = w.now();
             let r = t.req("create_lifetime_scope", h.create_lifetime_scope()).await;
             let txt = res_name(&r);
             match r {
                 Ok(scope) => {
+                    {
+                        let mut hist = w.hist.borrow_mut();
+                        let t1 = hist.tick();
+                        hist.objs.insert(scope.id().0.cookie.0, Life { owner: ci, start: t0, acked: t1, teardown_start: None, teardown_end: None });
+                        hist.obj_ids.push(scope.id().0);
+                    }
                     {
                         let mut b = w.board.borrow_mut();
                         b.scopes.push(Some(scope.id()));
@@ -1560,6 +1688,7 @@ async fn exec(w: &Rc<World>, t: &Rc<TaskCtx>, cc: &Rc<ClientCtx>, op: &Op) -> St
                     }
                     if let Some(old) = cc.scopes[*sc as usize].put(Rc::new(scope)) {
                         w.board.borrow_mut().ended_scopes.insert(old.id());
+                        w.note_object_teardown(ci, old.id().0.cookie.0);
                         drop(old);
                     }
                 }
@@ -1569,15 +1698,18 @@ async fn exec(w: &Rc<World>, t: &Rc<TaskCtx>, cc: &Rc<ClientCtx>, op: &Op) -> St
         }
         Op::EndScope { sc } => {
             let Some(scope) = cc.scopes[*sc as usize].get() else { return skip(w) };
+            w.note_object_teardown(ci, scope.id().0.cookie.0);
             let r = t.req("end_lifetime_scope", scope.end()).await;
             if matches!(r, Ok(()) | Err(Error::InvalidLifetime)) {
                 w.board.borrow_mut().ended_scopes.insert(scope.id());
+                w.hist_teardown_end_obj(scope.id().0.cookie.0);
             }
             res_name(&r)
         }
         Op::DropScope { sc } => match cc.scopes[*sc as usize].take() {
             Some(x) => {
                 w.board.borrow_mut().ended_scopes.insert(x.id());
+                w.note_object_teardown(ci, x.id().0.cookie.0);
                 drop(x);
                 "dropped".into()
             }
